@@ -14,22 +14,22 @@ DEFAULT_MACROS = [("log", "info"), ("log", "warn"), ("log", "error")]
 
 _KV_SHAPES = ["ident", "field", "uint", "float", "bool", "str", "str_semi", "str_comma", "str_escq", "str_eq",
               "mod_q", "mod_debug", "mod_pct", "mod_display", "mod_err", "mod_sval", "mod_serde",
-              "short", "short_q", "short_pct", "char_eq", "char_escq", "char_nl"]
+              "short", "short_q", "short_pct", "char_eq", "char_escq", "char_nl", "str_after_op", "str_in_call"]
 FEATURES = {
     "path": ["bare", "qual"],
     "macro": [0, 1, 2, 3, 4],          # index into the configured macro set (modulo its length)
-    "target": ["none", "plain", "spacey", "colons", "punct", "slashes", "blockopen", "escq"],
+    "target": ["none", "plain", "spacey", "colons", "punct", "slashes", "blockopen", "escq", "trail_backslash"],
     "nkv": [0, 1, 2, 3],
     "kv0": list(_KV_SHAPES),
     "kv1": list(_KV_SHAPES),
     "kv2": list(_KV_SHAPES),
     "msg": ["plain", "placeholder", "escquote", "unicode", "reflike_inside", "commentish", "parens", "empty",
-            "braces", "bang", "macrotext", "lead_digit", "lead_bracket", "lead_space", "lead_backslash"],
+            "braces", "bang", "macrotext", "lead_digit", "lead_bracket", "lead_space", "lead_backslash", "trail_backslash"],
     "trail": ["none", "pos1", "pos2", "named", "str"],
     "lay": ["tight", "space", "nl", "nl0", "blockc", "linec", "tabs", "exotic"],
     "pre": ["bol", "indent", "brace", "semi", "arrow", "closure", "call", "stmt", "strlit", "charlit", "eq",
             "uni_indent", "kw_return", "kw_break", "ident_comment", "in_format_arg", "in_macro_block"],
-    "post": ["semi", "paren", "comma", "brace", "eof"],
+    "post": ["semi", "paren", "comma", "brace", "eof", "semi_str"],
     "ref": ["none", "valid", "nearmiss"],
     # layout between the macro name, the `!` and the opening bracket (same token sequence for rustc and for the grammar)
     "bang": ["tight", "tight", "tight", "sp", "cm", "sp_after", "nl", "both"],
@@ -43,7 +43,7 @@ HAZARD = {
 }
 
 KV_KEYS = ["a", "b", "user_id", "k9", "_x", "naïve", "count", "r", "reference", "refx", "xref"]
-IDENTS = ["x", "val", "self_id", "n", "user", "cfg"]
+IDENTS = ["x", "val", "self_id", "n", "user", "cfg", "_tmp", "_"]
 
 
 def kv_text(shape, key, rnd):
@@ -57,7 +57,7 @@ def kv_text(shape, key, rnd):
         "str_semi": '%s = "%s"' % (key, rnd.choice(["a;b", ";", "x; y; z", 'ref = 5; '])),
         "str_eq": '%s = "%s"' % (key, rnd.choice(["x=y", "a = b", "==", "k=\\\"v\\\""])),
         "str_comma": '%s = "%s"' % (key, rnd.choice(["a,b", ",", "x, y", "ref = 5, "])),
-        "str_escq": '%s = "%s"' % (key, rnd.choice(['q\\"q', '\\"', 'say \\"hi\\"'])),
+        "str_escq": '%s = "%s"' % (key, rnd.choice(['q\\"q', '\\"', 'say \\"hi\\"', 'C:\\\\', 'a\\\\'])),
         "mod_q": "%s:? = %s" % (key, rnd.choice(IDENTS)),
         "mod_debug": "%s:debug = %s" % (key, rnd.choice(IDENTS)),
         "mod_pct": "%s:%% = %s" % (key, rnd.choice(IDENTS)),
@@ -69,6 +69,9 @@ def kv_text(shape, key, rnd):
         "char_eq": "%s = %s == '%s'" % (key, rnd.choice(["c", "ch"]), rnd.choice(["x", "=", "\"", "é", "/"])),
         "char_escq": "%s = %s != '\\''" % (key, rnd.choice(["c", "ch"])),
         "char_nl": "%s = %s == '\\n'" % (key, rnd.choice(["c", "ch"])),
+        # a string literal that is not the first token of the value, directly followed by the separator
+        "str_after_op": '%s = %s == "%s"' % (key, rnd.choice(IDENTS[:4]), rnd.choice(["s", "a,b", "x;y", ""])),
+        "str_in_call": '%s = %s.get("%s")' % (key, rnd.choice(IDENTS[:4]), rnd.choice(["key", "a b"])),
         "short": "%s" % key,
         "short_q": "%s:?" % key,
         "short_pct": "%s:%%" % key,
@@ -94,6 +97,8 @@ def msg_text(cls, marker, rnd):
         "lead_bracket": "] closing first [ %s" % m,
         "lead_space": "  \t%s after layout" % m,
         "lead_backslash": "\\n%s after an escape \\t" % m,
+        # the literal ends in an escaped backslash (a Windows directory): the quote after it closes the literal
+        "trail_backslash": "%s cannot open C:\\\\spool\\\\" % m,
     }[cls]
 
 
@@ -143,7 +148,7 @@ def build_stmt(feat, marker, rnd, macros=None, eol="\n", ref_id=None, kv_ref=Non
     tgt = feat["target"]
     if tgt != "none":
         t = {"plain": "app", "spacey": "my app target", "colons": "app::db::pool", "punct": "a-b.c_d,e;f(g)",
-             "slashes": "http://svc", "blockopen": "glob/*", "escq": 'a\\"b'}[tgt]
+             "slashes": "http://svc", "blockopen": "glob/*", "escq": 'a\\"b', "trail_backslash": "dir\\\\"}[tgt]
         parts.append(("target", 'target:%s"%s"%s,' % (" " if feat["lay"] != "tight" else " ", t, L())))
         parts.append(("lay", L() or " "))
     parts.append(("after_target", ""))
@@ -265,7 +270,7 @@ def pre_text(cls, rnd, eol):
 
 
 def post_text(cls, rnd, eol):
-    return {"semi": ";", "paren": ");", "comma": ",", "brace": " }", "eof": ""}[cls]
+    return {"semi": ";", "paren": ");", "comma": ",", "brace": " }", "eof": "", "semi_str": '; "ok"'}[cls]
 
 
 # ----------------------------------------------------------------------------- decoys (C11)
@@ -439,6 +444,7 @@ def filler(rnd, eol):
         "let total = a + b * 2;",
         "struct P { x: i32, y: i32 }",
         "// an ordinary comment",
+        "// default location: C:\\ProgramData\\acme\\store\\",
         "/* a block comment */",
         "/** a starred banner **/",
         "/*********/",
